@@ -2,7 +2,7 @@
     request isolation against a fresh Mux, panic-freedom, frame properties, id uniqueness. *)
 From Coq Require Import List NArith Bool Arith Lia.
 Import ListNotations.
-From Glb Require Import Lib.RouteBytes Lib.RouteSpec Model.Router Proofs.RouterP Model.StorePool.
+From Glb Require Import Lib.RouteBytes Lib.RouteSpec Lib.CounterFacts Model.Router Proofs.RouterP Model.StorePool.
 
 (** * base-36 rendering is injective below 36^13 *)
 Definition undigit36 (c : N) : N := if (c <? 58)%N then (c - 48)%N else (c - 87)%N.
@@ -532,4 +532,18 @@ Proof.
   pose proof (run_preserves_Inv _ _ _ (Inv_new prefix) Hr) as [_ [_ [Hpool _]]].
   assert (Hp : m_prefix m = fit9 prefix) by (apply (run_prefix _ _ _ Hr)).
   rewrite <- Hp. exact Hpool.
+Qed.
+
+(** ids are unique as long as the counter of the SOURCE AT HAND has not wrapped: [check_counter] (evaluated on the facts
+    extracted from the source on every run) gives the width 64 that [begin_ids_NoDup] needs. *)
+Theorem ids_unique_for_source : forall f, CounterFacts.check_counter f = true ->
+  CounterFacts.counter_width f = 64%N /\
+  forall prefix history m, run (new_mux prefix) history = Ok m ->
+    (m_next_id m < 2 ^ CounterFacts.counter_width f)%N -> NoDup (begin_ids (new_mux prefix) history).
+Proof.
+  intros f H. unfold CounterFacts.check_counter in H.
+  repeat (apply andb_true_iff in H; destruct H as [H ?]). apply N.eqb_eq in H.
+  split; auto. intros prefix history m Hr Hb. rewrite H in Hb.
+  apply (begin_ids_NoDup history (new_mux prefix) m (Inv_new prefix) Hr).
+  pose proof uint64_below_bound. unfold id_bound in *. eapply N.lt_le_trans; eauto.
 Qed.
